@@ -63,6 +63,8 @@ def rand_script(rng, n, gifts=True, noise=0.0, loss=False):
             sc.append(["issue", d, rand_spec(rng, allow_gift=(gifts and d == 0))])
         elif x < 0.47:
             sc.append(["release", 0 if rng.random() < 0.8 else 1])
+        elif x < 0.50 and gifts:
+            sc.append(rng.choice((["deliver_part", 0], ["gift_early", 0, rng.randrange(3), rng.random() < 0.7])))
         elif x < 0.67:
             sc.append(["deliver", 0, rand_chunks(rng)])
         elif x < 0.75:
@@ -116,6 +118,40 @@ def multi_gift(rng, k, results, chunks):
     for ok in results:
         sc += [["gift", 0, rng.randrange(3), ok]] + [["turn"] for _ in range(rng.randint(0, 2))]
     return sc
+
+
+def early_gift_family(rng, k, chunks, results):
+    """third-party references that resolve / fail while their call is still being received: the call's bytes are moved up to
+    the moment the receiver has asked its Tub for the reference, the reference resolves (results[0]), then the rest of the
+    call arrives; with two references the second one (results[1], if given) resolves late.  Calls before and after."""
+    two = len(results) > 1
+    sc = [["issue", 0, dict(kind=rng.choice(("plain", "gift")))], ["deliver", 0, chunks]]
+    sc += [["issue", 0, dict(kind="gift", gifts=2 if two else 1, pos=rng.choice((None, "all", "some")))]]
+    sc += [["issue", 0, dict(kind=rng.choice(("plain", "plain", "late", "gift")), only=rng.random() < 0.2)] for _ in range(k)]
+    sc += [["deliver_part", 0], ["gift_early", 0, 0, results[0]]]
+    if rng.random() < 0.5:
+        sc += [["turn"]]
+    sc += [["deliver", 0, chunks] for _ in range(k + 1)] + [["turn"], ["turn"]]
+    if two:
+        sc += [["gift", 0, 0, results[1]], ["turn"]]
+    sc += [["gift", 0, 0, True], ["turn"], ["gift", 0, 0, True], ["turn"], ["turn"]]
+    return sc
+
+
+def sender_loss_family(rng, k, chunks, when):
+    """the SENDER of direction 0 loses the connection (= the receiver of direction 1 does): with calls completely written but
+    not yet delivered, while it is paused in a streaming argument with calls queued behind (when='paused'), or idle.
+    Afterwards stalls are released, bytes delivered, calls issued: only what was completely written can still arrive."""
+    sc = [["issue", 0, dict(kind="plain")], ["issue", 0, dict(kind=rng.choice(("plain", "gift", "slow")))]]
+    if when == "paused":
+        sc += [["issue", 0, dict(kind="plain", stalls=rng.choice((1, 2)))]]
+    sc += [["issue", 0, dict(kind=rng.choice(("plain", "late", "plain")), only=rng.random() < 0.3)] for _ in range(k)]
+    sc += [["deliver", 0, chunks] for _ in range(rng.randint(0, 2))]
+    sc += [["lose", 1]]
+    tail = [["release", 0], ["release", 0], ["deliver", 0, chunks], ["deliver", 0, chunks], ["deliver", 0, chunks], ["turn"], ["turn"],
+            ["issue", 0, dict(kind="plain")], ["gift", 0, 0, True], ["deliver", 0, chunks]]
+    rng.shuffle(tail)
+    return sc + tail + [["deliver", 0, None] for _ in range(k + 3)] + [["turn"], ["turn"]]
 
 
 def loss_family(rng, k, chunks, when):
@@ -255,7 +291,12 @@ def judge(r):
         excused = set()
         if lost_at is not None:
             late = [c for e, c in ev[lost_at + 1:] if e == "entered"]
-            if late:
+            g0 = set(r.get("gift0", [[], []])[d])
+            if late and set(late) <= g0:
+                bad.append(("oracle/entered-after-loss-giftid0", "direction %d: call(s) %r, whose third-party reference the peer sent "
+                            "with giftID 0, were entered after the receiving Broker had lost the connection (ackGift sends "
+                            "nothing for giftID 0, so the late resolution is not turned into a failure)" % (d, late)))
+            elif late:
                 bad.append(("oracle/entered-after-loss", "direction %d: call(s) %r were entered after the receiving Broker had lost "
                             "the connection (connectionLost -> finish)" % (d, late)))
             excused = set(ids) - set(c for e, c in ev[:lost_at] if e == "entered")
@@ -283,7 +324,7 @@ def judge(r):
                 done.add(c)
         # after quiescence: exactly the acceptable calls were entered, once
         # only a gift that the scenario itself made unresolvable excuses a call from being entered
-        failed_gifts = set(o[1] for ops in r["ops"][d] for o in ops if o[0] == "G" and not o[2])
+        failed_gifts = set(o[1] for ops in r["ops"][d] for o in ops if o[0] in ("G", "G0", "E") and not o[2])
         kinds = {c: k for c, k, _ in issued}
         for c, k in kinds.items():
             n = ent.count(c)
@@ -333,6 +374,12 @@ def coq_op(o):
         return "Issue %d %s" % (o[2], "(" + f % max(o[3], 1) + ")" if "%d" in f else f)
     if o[0] == "X":
         return "Disconnect"
+    if o[0] == "C":
+        return "SenderLost"
+    if o[0] == "E":
+        return "EarlyGift %d %s" % (o[1], coq_bool(o[2]))
+    if o[0] == "G0":
+        return "GiftReady0 %d %s" % (o[1], coq_bool(o[2]))
     if o[0] == "S":
         return "StallRelease"
     if o[0] == "D":
@@ -558,6 +605,49 @@ Eval vm_compute in send_idle_before_enqueue.
                      % (o["idle_wakes"], idle, o["busy_wakes"]), replay=dict(measured=o, model_idle=idle), has_input=False)
 
 
+def packet_correspond(ctx, runs):
+    """the byte level (lib/OrderBytes.v: C07's tokenizer + top-level framing) on the REAL bytes cut into the REAL packets:
+    after every packet the number of OPEN tokens seen (Banana.objectCounter), whether the receiver is between top-level
+    objects, and -- on streams that carry only accepted tracked calls -- the number of completed top-level objects
+    (= Broker.scheduleCall invocations = model Deliver steps)"""
+    picked, budget = [], 60000
+    for name, script, d, r in runs:
+        pk = r["packets"][0]
+        if d != 0 or not pk or r["recv_lost"][0]:
+            continue
+        nbytes = sum(len(p[0]) for p in pk)
+        if nbytes > budget or len(picked) >= ctx.n(60, 400):
+            continue
+        budget -= nbytes
+        only_calls = not r["issued"][1] and all(k not in ("early", "abort") for _, k, _ in r["issued"][0])
+        picked.append((name, script, pk, only_calls))
+    if not picked:
+        return
+    body = "Local Open Scope Z_scope.\nDefinition cases : list (list (list Z)) := " + coq_list(
+        [coq_list([coq_list(["%d" % b for b in p[0]]) for p in pk]) for _, _, pk, _ in picked]) + ".\n" \
+        "Eval vm_compute in map (after_each (Recv.init tt) finit) cases.\n"
+    try:
+        (vals,) = ctx.coq_eval("C04_packets", body, requires=REQ + ["Verif.lib.Recv", "Verif.lib.OrderBytes"])
+    except common.CoqEvalError as e:
+        ctx.fail("correspondence-broken", "the byte-level model could not be evaluated: " + str(e)[-1500:], has_input=False)
+        return
+    npk = 0
+    for (name, script, pk, only_calls), m in zip(picked, vals):
+        ctx.traces += 1
+        for i, ((data, nsched, idle, opens), mv) in enumerate(zip(pk, m)):
+            npk += 1
+            mdone, midle, mopens = mv[0], mv[1], mv[2]
+            if (mopens, bool(midle)) != (opens, idle) or (only_calls and mdone != nsched):
+                ctx.fail("correspondence/packets", "byte-level model and receiver disagree in scenario %s after packet %d (%d bytes): model "
+                         "(completed top-level objects, between objects, OPENs seen) = %r, receiver (scheduleCalls%s, between objects, "
+                         "objectCounter) = %r" % (name, i, len(data), (mdone, bool(midle), mopens),
+                                                  "" if only_calls else " [stream also carries other objects]", (nsched, idle, opens)),
+                         replay=dict(scenario=name, script=script, packet=i), has_input=False)
+                break
+    ctx.extra["packet_traces"] = len(picked)
+    ctx.extra["packets_compared"] = npk
+
+
 def async_and_facts(ctx, impl):
     """the translated AsyncAND (and_init / and_cb) against the real class: all result sequences over up to 4 components"""
     import itertools
@@ -598,12 +688,13 @@ def run(ctx):
     ctx.assumptions = [
         "the transport delivers bytes in order (TCP); the harness moves the bytes itself, in arbitrary pieces",
         "Twisted Deferred callback chains run synchronously and in the order added (modelled, not verified)",
-        "connection loss: the RECEIVER's loss (Broker.connectionLost -> finish) is a model op (Disconnect) with theorems and is "
-        "exercised by the correspondence; a SENDER that is cut off is judged by the direct oracle only (what it had not "
-        "written is gone: the model keeps those calls upstream forever)",
-        "a third-party reference is resolved by a stand-in Tub.getReference whose Deferred the harness fires, and only "
-        "after the call carrying it has been completely received (a resolution that precedes the end of its call is not a "
-        "model op); a call carries at most two references at argument level (references nested in containers: oracle of C08/C09)",
+        "connection loss: the receiver's loss (Disconnect) and the sender's loss (SenderLost: it goes on serializing into a dead "
+        "transport) are model ops with theorems, both exercised by the correspondence",
+        "a third-party reference is resolved by a stand-in Tub.getReference whose Deferred the harness fires, after the call "
+        "carrying it has been completely received (GiftReady) or while it is still being received (EarlyGift); a call carries "
+        "at most two references at argument level (references nested in containers: not modelled, oracle of C08/C09)",
+        "the byte level (lib/OrderBytes.v: C07's tokenizer + top-level framing) is compared with the real receiver on the real "
+        "bytes and packets (OPENs seen, between-objects flag, completed calls); the link call -> bytes (CallSlicer) is C01's",
         "the Deferred network of a delivery (AsyncAND x2, ArgumentUnslicer counters) is translated statement by statement; "
         "how the pieces are wired together (receiveClose, TheirReferenceUnslicer._ready/_failed) is hand-modelled, checked "
         "as shape facts and compared with the real counters after every step",
@@ -643,9 +734,8 @@ def run(ctx):
         if loopback or knobs:
             return r                                # bytes travel in the eventual queue: direct oracle only
         has_gift = any(k == "gift" for d in (0, 1) for _, k, _ in r["issued"][d])
-        if not r["send_lost"][0]:
-            runs.append((name, script, 0, r))       # (a sender that was cut off is judged by the direct oracle only)
-        if not has_gift and sent[1] and not r["send_lost"][1]:
+        runs.append((name, script, 0, r))
+        if not has_gift and sent[1]:
             runs.append((name, script, 1, r))      # reverse direction is free of the broker's own decgift calls
         return r
 
@@ -686,6 +776,15 @@ def run(ctx):
         for k in range(1, ctx.n(4, 7)):
             for rep in range(ctx.n(2, 5)):
                 do("loss-%s-%d-%d" % (when, k, rep), loss_family(rng, k, rand_chunks(rng), when))
+    for results in ((True,), (False,), (True, True), (True, False), (False, True)):
+        for k in range(1, ctx.n(3, 6)):
+            for rep in range(ctx.n(2, 4)):
+                do("early-gift-%s-%d-%d" % ("".join("t" if x else "f" for x in results), k, rep),
+                   early_gift_family(rng, k, rand_chunks(rng), results))
+    for when in ("written", "paused"):
+        for k in range(1, ctx.n(4, 7)):
+            for rep in range(ctx.n(2, 4)):
+                do("sender-loss-%s-%d-%d" % (when, k, rep), sender_loss_family(rng, k, rand_chunks(rng), when))
     # time passes: call delivery must not depend on it -- with the default configuration and with every configuration
     # attribute of Broker/Banana that the reference tree does not have, set to non-default values
     for i, sc in enumerate(clock_scripts()):
@@ -735,6 +834,13 @@ def run(ctx):
         local_correspond(ctx, impl)
         unit_facts(ctx, impl)
         async_and_facts(ctx, impl)
+        bytes_ok = ok
+        if not ok:
+            keep = dict(ctx.extra)
+            bytes_ok, _ = ctx.coq_build(["lib/OrderBytes.vo"])
+            ctx.extra.update({k: v for k, v in keep.items() if k in ("print_assumptions_closed", "coq_build_s")})
+        if bytes_ok:
+            packet_correspond(ctx, runs)
     else:
         ctx.note("model does not build: correspondence skipped")
     if not ok and len(ctx.failures) == before:
